@@ -318,6 +318,38 @@ def sampling_bounded(p):
                     failures.append(dict(file=fname, subgrid=sub, what="velocity depends on the loaded subgrid"))
                 ref.setdefault(key, (U.copy(), V.copy()))
                 force.close()
+        # sloping bottom: the level bracket and weight come from the particle's OWN column, whatever the other
+        # particles of the call are (all shallow / mixed) and whatever rectangle is loaded
+        jj, ii = np.meshgrid(np.arange(10), np.arange(12), indexing="ij")
+        hslope = 10.0 + 10.0 * ii + 3.0 * jj
+        make_roms_file(d / "slope.nc", imax0=12, jmax0=10, kmax=5, times=[0, 7200], u=lambda t, tv, K, J, I: 0.1 * K + 0 * I, v=lambda t, tv, K, J, I: -0.05 * K + 0 * I, h=hslope)
+        Xs = np.array([2.3, 3.1, 4.4, 6.2, 8.7, 2.6, 3.499, 5.0])
+        Ys = np.array([4.6, 3.2, 5.4, 4.1, 6.3, 2.8, 4.45, 5.0])  # no half-integer ties (own cell ambiguous there)
+        for zset, Zs in (("all shallow", np.full(8, 5.0)), ("mixed", np.array([5.0, 5.0, 40.0, 5.0, 70.0, 2.0, 12.0, 30.0])), ("surface", np.full(8, 0.5))):
+            for sub in (None, (1, 11, 1, 9), (2, 7, 2, 8)):
+                keep = np.ones(len(Xs), bool) if sub is None else (Xs > sub[0] + 0.6) & (Xs < sub[1] - 1.6) & (Ys > sub[2] + 0.6) & (Ys < sub[3] - 1.6)
+                if not keep.any():
+                    continue
+                timer = TimeKeeper(start="2020-01-01T00:00:00", stop="2020-01-01T02:00:00", dt=600)
+                grid = Grid(d / "slope.nc", subgrid=sub)
+                state = State()
+                state.append(X=Xs[keep], Y=Ys[keep], Z=Zs[keep])
+                force = Forcing(modules=dict(time=timer, grid=grid, state=state), filename=d / "slope.nc")
+                timer.update()
+                force.update()
+                U, V = force.velocity(state.X, state.Y, state.Z)
+                cases += 1
+                full = Grid(d / "slope.nc")
+                for n, (x, y, z) in enumerate(zip(Xs[keep], Ys[keep], Zs[keep])):
+                    col = np.asarray(full.z_r[:, int(round(y)) - full.j0, int(round(x)) - full.i0])  # own column (C12: increasing upwards)
+                    zc = min(max(-z, col[0]), col[-1])
+                    k = int(np.clip(np.searchsorted(col, zc), 1, len(col) - 1))
+                    w = (zc - col[k - 1]) / (col[k] - col[k - 1])
+                    kf = (k - 1) + w
+                    if abs(U[n] - 0.1 * kf) > 2e-6 or abs(V[n] + 0.05 * kf) > 2e-6:
+                        failures.append(dict(file="slope.nc", subgrid=sub, depths=zset, what="velocity is not interpolated between the two levels of the particle's own column that bracket its depth", X=float(x), Y=float(y), Z=float(z), got=float(U[n]), expected=float(0.1 * kf)))
+                        break
+                force.close()
         # land faces
         timer = TimeKeeper(start="2020-01-01T00:00:00", stop="2020-01-01T02:00:00", dt=600)
         grid = Grid(d / "land.nc")
@@ -335,4 +367,4 @@ def sampling_bounded(p):
             failures.append(dict(what="velocity in open water altered by the mask", U=U.tolist()))
         force.close()
         samples.append(dict(field="u = 0.1 + 0.02 x - 0.03 y + 0.05 k", subgrids=3, storage=["float", "packed"], positions=len(X)))
-    return dict(cases=cases, failures=failures[:10], samples=samples, bound="2 storage kinds x 3 subgrids x 35 positions (incl. cell edges/corners, above surface, below bottom); one land mask")
+    return dict(cases=cases, failures=failures[:10], samples=samples, bound="2 storage kinds x 3 subgrids x 35 positions (incl. cell edges/corners, above surface, below bottom); one land mask; sloping bottom x 3 depth sets x 3 subgrids")
